@@ -8,7 +8,7 @@ for d in sorted(os.listdir(os.path.join(HERE, 'seeded'))):
     m = json.load(open(os.path.join(HERE, 'seeded', d, 'meta.json')))
     h = m.get('history') or ''
     tag = 'as built'
-    if 'MISSED' in h:
+    if 'MISSED' in h or h.startswith('not reported at arrival'):
         tag = '**missed at first**: ' + h.split(';', 1)[-1].strip()[:150]
         missed += 1
     elif 'INCONCLUSIVE' in h or 'first version' in h:
